@@ -144,19 +144,11 @@ func findSection(
 	dots token.Pos, want []Matcher, got []reflect.Value, d data.Data, r Region, idx int,
 	rest func(newIdx int, d data.Data) (data.Data, bool),
 ) (_ data.Data, ok bool) {
-	// Special case: Looking for "..." at the end of the list. Skip everything
-	// in got.
-	if len(want) == 0 {
-		r := sectionRegion(got, r, idx, len(got))
-		d := pushSliceDotsSkipped(d, dots, got[idx:], r)
-		newIdx, newD, ok := matchPrefix(want, got, d, r, len(got))
-		if !ok {
-			return d, false
-		}
-		return rest(newIdx, newD)
-	}
-
-	for i := idx; i < len(got); i++ {
+	// An empty section is a "..." at the end of the list, which skips
+	// everything left in got, or a "..." directly followed by another one,
+	// which skips nothing: both are found by the search below, which is why
+	// it runs up to and including len(got).
+	for i := idx; i <= len(got); i++ {
 		r := sectionRegion(got, r, idx, i)
 		newIdx, newD, ok := matchPrefix(want, got, pushSliceDotsSkipped(d, dots, got[idx:i], r), r, i)
 		if !ok {
